@@ -443,12 +443,58 @@ def translate (env : Env) (t : Tree) (look : Path → Option Module) (base : Pat
 
 /-! ### `generate_ui` (src/main.rs): the loop over the sources -/
 
-/-- `for p in &args.sources { generate_ui_file(..)?; }` — the sources are translated in argument order and
-    the first rejected one ends the run.  Input: per source its name and whether it is accepted; result:
-    the sources whose `.ui` is written, and the exit status (`true` = success). -/
-def cliRun : List (String × Bool) → List String × Bool
-  | [] => ([], true)
-  | (n, true) :: rest => (n :: (cliRun rest).1, (cliRun rest).2)
-  | (_, false) :: _ => ([], false)
+/-- What `generate_ui_file` returns for one source. -/
+inductive SrcOutcome where
+  /-- `Ok(())`: the `.ui` (and support header) is written -/
+  | accepted
+  /-- `Err(CommandError::DiagnosticGenerated)`: syntax error or an error diagnostic; nothing is written -/
+  | rejected
+  /-- `Err(CommandError::Other(_))`: I/O failure, source not loaded -/
+  | fatal
+deriving DecidableEq, Repr, Inhabited
+
+inductive CliStatus where
+  | success
+  | diagnosticGenerated
+  | otherError
+deriving DecidableEq, Repr, Inhabited
+
+/-- The loop of `generate_ui` (after the repair of F15):
+
+        let mut diagnostic_generated = false;
+        for p in &args.sources {
+            match generate_ui_file(..) {
+                Ok(()) => {}
+                Err(CommandError::DiagnosticGenerated) => diagnostic_generated = true,
+                Err(e) => return Err(e),
+            }
+        }
+        if diagnostic_generated { return Err(CommandError::DiagnosticGenerated); }
+
+    Input: per source its name and outcome; result: the sources whose outputs are written (in order), and
+    how the command ends. -/
+def cliLoop : Bool → List (String × SrcOutcome) → List String × CliStatus
+  | diag, [] => ([], if diag then .diagnosticGenerated else .success)
+  | diag, (n, .accepted) :: rest => (n :: (cliLoop diag rest).1, (cliLoop diag rest).2)
+  | _, (_, .rejected) :: rest => cliLoop true rest
+  | _, (_, .fatal) :: _ => ([], .otherError)
+
+def cliRun (srcs : List (String × SrcOutcome)) : List String × CliStatus := cliLoop false srcs
+
+/-- The loop BEFORE the repair of F15: `for p in &args.sources { generate_ui_file(..)?; }` — the first
+    source that is not accepted ends the run.  Kept only for the pre-repair witness in `QV.Props.C18`. -/
+def cliRunFailFast : List (String × SrcOutcome) → List String × CliStatus
+  | [] => ([], .success)
+  | (n, .accepted) :: rest => (n :: (cliRunFailFast rest).1, (cliRunFailFast rest).2)
+  | (_, .rejected) :: _ => ([], .diagnosticGenerated)
+  | (_, .fatal) :: _ => ([], .otherError)
+
+/-- the process exit code of `qmluic` for a status -/
+def CliStatus.exitCode : CliStatus → Nat
+  | .success => 0
+  | _ => 1
+
+/-- `source.with_file_name(file_name_rules.type_name_to_ui_name(type_name))`, default rules -/
+def uiFileName (stem : String) : String := String.ofList ((stem.toList ++ ['.', 'u', 'i']).map asciiLower)
 
 end QV.Model.QmlDir
